@@ -35,6 +35,16 @@ CHECKS = {
    note="Trusts the blake3/sha3 crates and refmath; constants are read from the crate's published tables and bound by equations + fingerprint; needs the crypto verif hook for crate-private functions.",
    technique="bounded-exhaustive enumeration of inputs/states against reference implementations",
    engine="hashes", design_ref="§4 C11"),
+ "C16": dict(category="exploration",
+   text="Exhaustive exactly as quantified: trace lengths 8..256, all three base fields, every exemption count 1..n/2+1 (transition divisor equals the product over the non-exempt points as a polynomial), every assertion valid for the length (divisor zero set over the whole domain = named steps; value polynomial reproduces every asserted value and is the low-degree interpolant), every ordered pair of assertions on one column (overlap <=> step sets intersect; BoundaryConstraints::new refuses exactly then for n <= 32), ill-formed assertions refused.",
+   note="Trace-domain generator is the library's root of unity (order checked by C07); reference arithmetic.",
+   technique="exhaustive enumeration of the quantified finite space against set arithmetic / polynomial identity at degree+1 points",
+   engine="airdom", design_ref="§4 C16"),
+ "C18": dict(category="exploration",
+   text="Conjectured estimate: every (queries, blowup, grinding, extension, field size, trace length 2^3..2^32, collision resistance) combination against an independently computed formula and against its successor in each monotone dimension; proven estimate: a dense lattice with successor comparisons and a pinned value; policy: AcceptableOptions::validate at level-1/level/level+1 for both estimates and option-set membership.",
+   note="The verify()-level part of the policy (rejection before anything else, claimed field vs. computation field) is exercised with real proofs by C01/C02's corpus; contexts beyond Context::new's limit are built by decoding hand-assembled bytes.",
+   technique="exhaustive enumeration of the parameter space against a reference formula and monotonicity relations",
+   engine="airdom", design_ref="§4 C18"),
  "C19": dict(category="model_checking",
    text="Explicit-state BFS over public-coin histories (new/reseed/draw base-quad-cubic/draw_integers/check_leading_zeros) for all six hashers to depth 3-4 (quick) / 4-6 (thorough); each transition runs on the real DefaultRandomCoin and on a reference coin written from the doc comments and is compared; every state is probed for its next outputs, which must be a function of and injective in the canonical reference state.",
    note="Trusts the hasher primitives (C11); coin states differing only by skipped invalid candidates are identified (they are observationally equal by construction of rejection sampling).",
@@ -89,6 +99,7 @@ def main():
             {"name": "kit", "path": "harness/kit", "serves_properties": ALL, "kind_free_text": "bounded-exhaustive explorer with watchdog (E1), level-synchronous explicit-state BFS (E2), evidence/replay/known-findings, reference arithmetic"},
             {"name": "fields", "path": "harness/bins/fields", "serves_properties": ["C07", "C08"], "kind_free_text": "alphabet products + representation reachability"},
             {"name": "polyfft", "path": "harness/bins/polyfft", "serves_properties": ["C09", "C20"], "kind_free_text": "monomial-basis FFT checks, segmented LDE, polynomial utilities"},
+            {"name": "airdom", "path": "harness/bins/airdom", "serves_properties": ["C16", "C18"], "kind_free_text": "divisor/assertion domains; security-estimate parameter space"},
             {"name": "merkle", "path": "harness/bins/merkle", "serves_properties": ["C10"], "kind_free_text": "all subsets x all mutations of Merkle openings"},
             {"name": "hashes", "path": "harness/bins/hashes", "serves_properties": ["C11", "C19"], "kind_free_text": "reference sponge/coin; BFS over coin histories"},
             {"name": "serial", "path": "harness/bins/serial", "serves_properties": ["C12", "C13"], "kind_free_text": "round-trip enumeration over readers; BFS over reader histories"},
